@@ -197,8 +197,16 @@ func (r *runReport) finish() int {
 	for _, s := range undecided {
 		fmt.Println(s)
 	}
+	baseCover := map[string]bool{}
+	for _, n := range base[r.prop+"#unreachable"] {
+		baseCover[n] = true
+	}
+	var newCoverLost []string
 	for _, s := range coverLost {
-		fmt.Println("COVER-LOST", s)
+		if !baseCover[s] {
+			newCoverLost = append(newCoverLost, s)
+			fmt.Println("COVER-LOST", s)
+		}
 	}
 	for _, s := range missing {
 		fmt.Println("BASELINE-MISSING", s)
@@ -219,6 +227,8 @@ func (r *runReport) finish() int {
 	if r.writeBaseline {
 		sort.Strings(proved)
 		base[r.prop] = proved
+		sort.Strings(coverLost)
+		base[r.prop+"#unreachable"] = coverLost
 		b, _ := json.MarshalIndent(base, "", " ")
 		os.MkdirAll(filepath.Dir(r.baselineFile), 0o755)
 		os.WriteFile(r.baselineFile, b, 0o644)
@@ -258,7 +268,8 @@ func (r *runReport) finish() int {
 				"discharged_by_backend":    bySolver,
 				"solver_time_s":            round3(solverTime),
 				"undecided":                append(append([]string{}, undecided...), stale...),
-				"cover_lost":               coverLost,
+				"cover_lost":               newCoverLost,
+				"unreachable_in_baseline":  len(coverLost) - len(newCoverLost),
 				"known_findings":           knownHits,
 				"baseline_missing":         missing,
 				"bounded":                  []string{},
